@@ -364,3 +364,91 @@ mod tests {
         }
     }
 }
+
+// ---------------------------------------------------------------------------------------------
+// wide and deep families (more than 3 siblings, more than 3 levels)
+
+fn kind5() -> Vec<RVal> {
+    vec![RVal::Null, RVal::u(1), RVal::s("ab"), RVal::arr(vec![]), RVal::obj(vec![("a", RVal::Null)])]
+}
+
+/// number of wide documents: arrays and objects with exactly 4, 5, 6 children over 5 kinds
+pub fn wide_count() -> u64 {
+    2 * (5u64.pow(4) + 5u64.pow(5) + 5u64.pow(6))
+}
+
+pub fn wide_nth(mut i: u64) -> RVal {
+    let k = kind5();
+    let as_obj = i % 2 == 1;
+    i /= 2;
+    let mut n = 4u32;
+    while i >= 5u64.pow(n) {
+        i -= 5u64.pow(n);
+        n += 1;
+    }
+    let mut items = Vec::with_capacity(n as usize);
+    for _ in 0..n {
+        items.push(k[(i % 5) as usize].clone());
+        i /= 5;
+    }
+    if as_obj {
+        let keys = ["", "a", "ab", "b", "é", "z"];
+        RVal::Obj(items.into_iter().enumerate().map(|(j, v)| (keys[j].to_string(), v)).collect())
+    } else {
+        RVal::Arr(items)
+    }
+}
+
+/// deep documents: depth 4..=6, at every level one of 5 sibling patterns around the child
+pub fn deep_count() -> u64 {
+    5u64.pow(4) + 5u64.pow(5) + 5u64.pow(6)
+}
+
+pub fn deep_nth(mut i: u64) -> RVal {
+    let mut d = 4u32;
+    while i >= 5u64.pow(d) {
+        i -= 5u64.pow(d);
+        d += 1;
+    }
+    let mut v = RVal::s("leaf");
+    for lvl in 0..d {
+        let pat = i % 5;
+        i /= 5;
+        let sib = if lvl % 2 == 0 { RVal::u(300) } else { RVal::Null };
+        v = match pat {
+            0 => RVal::Arr(vec![v]),
+            1 => RVal::Arr(vec![sib, v]),
+            2 => RVal::Arr(vec![v, sib]),
+            3 => RVal::obj(vec![("a", sib), ("b", v)]),
+            _ => RVal::obj(vec![("a", v), ("z", sib)]),
+        };
+    }
+    v
+}
+
+/// the key path from the root of a document down along its first container / "leaf" child
+/// (total: stops where no such child exists)
+pub fn spine(v: &RVal) -> Vec<crate::ops::KP> {
+    let is_next = |x: &RVal| x.is_container() || matches!(x, RVal::Str(s) if s == "leaf");
+    let mut out = vec![];
+    let mut cur = v;
+    loop {
+        match cur {
+            RVal::Arr(a) => match a.iter().position(is_next) {
+                Some(i) => {
+                    out.push(crate::ops::KP::Index(i as i32));
+                    cur = &a[i];
+                }
+                None => return out,
+            },
+            RVal::Obj(o) => match o.iter().find(|(_, x)| is_next(x)) {
+                Some((k, x)) => {
+                    out.push(crate::ops::KP::Name(k.clone()));
+                    cur = x;
+                }
+                None => return out,
+            },
+            _ => return out,
+        }
+    }
+}
